@@ -23,8 +23,8 @@ pub mod sched;
 pub fn run(args: &Args) -> i32 {
     match args.prop.as_str() {
         "c01" => sched::run(args, "c01", "C01", 19_200, 240_000, 6),
-        "c02" => sched::run(args, "c02", "C02", 38_400, 400_000, 8),
-        "c03" => sched::run(args, "c03", "C03", 38_400, 400_000, 8),
+        "c02" => sched::run(args, "c02", "C02", 38_400, 400_000, 4),
+        "c03" => sched::run(args, "c03", "C03", 38_400, 400_000, 4),
         "c04" => c04::run(args),
         "c08" => c08::run(args),
         "c09" => c09::run(args),
